@@ -2,7 +2,7 @@
 import os, subprocess, shutil, json, tempfile
 from common import *
 
-SCRATCH = os.environ.get("VERIF_SCRATCH", "/tmp/verif-replay")
+SCRATCH = os.environ.get("VERIF_SCRATCH", f"/tmp/verif-replay-{PROP}-{os.getpid()}")
 _built = {}
 PROM_BINS = {"c18", "c07", "c08", "c19"}      # replay programs that need the Prometheus exporter (own crate: hyper/tokio are slow to build)
 
@@ -50,7 +50,7 @@ def build(binname):
     env = dict(os.environ)
     env["RUSTFLAGS"] = f"--cfg {GUARD}"
     env["CARGO_NET_OFFLINE"] = "true"
-    tdir = os.path.join(BUILD, "replay-e3-prom" if prom else "replay-e3")
+    tdir = os.path.join(WORK, "replay-e3-prom" if prom else "replay-e3")
     r = subprocess.run(["cargo", "+1.74.0", "build", "--offline", "--bin", binname, "--target-dir", tdir],
                        cwd=cdir, capture_output=True, text=True, env=env)
     if r.returncode != 0:
@@ -76,3 +76,7 @@ def run(binname, plan_path):
 
 def cleanup():
     shutil.rmtree(SCRATCH, ignore_errors=True)
+
+
+import atexit
+atexit.register(cleanup)
